@@ -567,7 +567,7 @@ def corr_kv2(ck: Ck) -> None:
     the model's text equals the exported text after the header line, and the model's parse of that text equals the
     string-level document of what Element.parse returns."""
     from srctools import dmx
-    n = ck.budget(40, 900)
+    n = ck.budget(40, 400)
     cases = []
     corpus = [s for _, s, ms in CORPUS if any(m['fmt'] == 'kv2' for m in ms)]
     for i in range(n):
@@ -719,7 +719,7 @@ def corr_kv2_nested(ck: Ck) -> None:
     """Fmt/DmxKv2Nested.v writer and parser vs export_kv2(flat=False, cull_uuid) and parse_kv2: exact text, and the
     parsed tree of blocks (inline elements where they were written)."""
     from srctools import dmx
-    n = ck.budget(40, 900)
+    n = ck.budget(40, 400)
     cases = []
     corpus = [s for _, s, ms in CORPUS if any(m['fmt'] == 'kv2' for m in ms)]
     for i in range(n):
